@@ -192,7 +192,7 @@ the `Print Assumptions` summary.
 | C06 | product = composition (basis of MatrixOf) | - | every matrix entry of sparse operators vs MatrixOf / Bargmann; matvec, parallel matvec (forced orders), diagonal, expectation, variance | quad matrices, eigenspectrum traces |
 | C07 | adjoint theorem; commutator-checker soundness | - | hermitian_conjugated, (anti)commutator, double commutator + hopping shortcut, all dual-basis pairs / triples, DC commutator, trotter_error predicates, bch_expand against an exact BCH series (nilpotent exp/log inside Coq) | - |
 | C08 | checker soundness | - | tensor arithmetic, all conversions and round trips, boson<->quad, rotate_basis = substitution, DOCI | rotation spectra |
-| C09 | GF(2) evaluation homomorphism, canonical form sound | - | BinaryPolynomial expressions, code validity on whole domains, binary_code_transform, JW/BK reproduction | - |
+| C09 | GF(2) evaluation homomorphism, canonical form sound; `C09_parity_code_roundtrip`, `C09_jw_code_roundtrip` (every n) | - | BinaryPolynomial expressions, code validity on whole domains, binary_code_transform, JW/BK reproduction | - |
 | C10 | `C10_number_indices_exact` (every n and particle number: each state of the sector exactly once); number operator eigenvalues | - | sector lists vs full enumeration, restricted matrices, determinant bases, expectation values | ground state at particle number (eigenpair, sector support, lowest sector eigenvalue) |
 | C11 | `C11_square/rect/gauss_layers_ok` (every size: adjacent, disjoint within a layer, depth) | covering (each required entry once) for n <= 32 (20) | reconstruction of every decomposition; emitted schedule = model | - |
 | C12 | `C12_diagonal_form_spectrum` (every diagonal form: eigenvalues are the subset sums); product / adjoint theorems used | - | Bogoliubov constraints + diagonal form, majorana_form, canonical form, eigenvector residuals | subset-sum spectrum, Slater minors |
